@@ -18,6 +18,13 @@ def _rec_trappist(*a, **kw):
 _sdm.trappist = _rec_trappist
 _ems.trappist = _rec_trappist
 
+_FALLBACK = []
+_orig_fallback = _sdm.symbolic_attractor_fallback
+def _rec_fallback(*a, **kw):
+    _FALLBACK.append(1)
+    return _orig_fallback(*a, **kw)
+_sdm.symbolic_attractor_fallback = _rec_fallback
+
 def classify_exc(e):
     if isinstance(e, RuntimeError):
         return "raised:motiflimit" if "stable motifs" in str(e) else "raised:runtime"
@@ -69,6 +76,29 @@ def apply_real(sd, op, nm):
             finally:
                 if _TAPE:
                     tape = ";".join(sp2s(sp | x, nm) for x in _TAPE[0]) or "-"
+        elif k in ("cands", "seeds", "sets"):
+            i = op[1]
+            if i >= len(sd):
+                return "raised:key", None, sd
+            nd = sd.node_data(i)
+            pre = (nd["attractor_candidates"] is None, nd["attractor_seeds"] is None, nd["attractor_sets"] is None)
+            _FALLBACK.clear()
+            raised = False
+            try:
+                if k == "cands":
+                    sd.node_attractor_candidates(i, compute=True, greedy_asp_minification=op[2], simulation_minification=op[3])
+                elif k == "seeds":
+                    sd.node_attractor_seeds(i, compute=True, symbolic_fallback=op[2])
+                else:
+                    sd.node_attractor_sets(i, compute=True)
+                r = "unit"
+            except RuntimeError:
+                raised = True; r = "raised:runtime"
+            c = nd["attractor_candidates"]
+            oc = "r" if (raised or _FALLBACK) else ("-" if c is None else str(len(c)))
+            sknown = nd["attractor_sets"] is not None
+            os_ = "-" if nd["attractor_seeds"] is None else (str(len(nd["attractor_seeds"])) + ("s" if sknown else ""))
+            tape = (oc, os_)
         elif k == "reclaim":
             sd.reclaim_node_data(); r = "unit"
         elif k == "pickle":
@@ -95,6 +125,12 @@ def model_cmd(op, tape):
         return f"op skipmin {op[1]} {tape or '-'}"
     if k == "skiprem":
         return f"op skiprem {tape or '-'}"
+    if k == "cands":
+        return f"op cands {op[1]} {tape[0] if tape else '-'}"
+    if k == "seeds":
+        return f"op seeds {op[1]} {int(op[2])} {tape[0] if tape else '-'} {tape[1] if tape else '-'}"
+    if k == "sets":
+        return f"op sets {op[1]} {tape[0] if tape else '-'} {tape[1] if tape else '-'}"
     return f"op {k}"
 
 def sort_ids(r):
@@ -165,6 +201,12 @@ def gen_history(rng, n, max_len=6, kinds=("expand", "bfs", "dfs", "min", "target
             h.append(("skiprem",))
         elif k in ("reclaim", "pickle"):
             h.append((k,))
+        elif k == "cands":
+            h.append(("cands", rng.randint(0, 6), rng.random() < 0.7, rng.random() < 0.7))
+        elif k == "seeds":
+            h.append(("seeds", rng.randint(0, 6), rng.random() < 0.3))
+        elif k == "sets":
+            h.append(("sets", rng.randint(0, 6)))
     return h
 
 def fix_history(h, rules):
